@@ -440,6 +440,8 @@ def run(ctx):
         t = rand_tree(rnd, rnd.randint(1, 12), rnd.choice([0.0, 0.3, 0.8]))
         if lang.size(t) > 30:
             continue
+        if j % 400 == 0:
+            failing_dump(env, rnd)
         t_ok = check_tree(env, t, rnd, "random")
         if j % 3 == 0 and t_ok:
             # only trees that parse as intended on their own (a tree that hits a listed finding is reported by check_tree)
@@ -449,6 +451,25 @@ def run(ctx):
         if j % 1999 == 0:
             acc.sample({"text": lang.to_text(t), "tree": norm(larkconv.sexpr(t))})
     core.celpy().CELParser.CEL_PARSER = None
+
+
+def failing_dump(env: Env, rnd):
+    """A dump that fails (an expression nested far beyond CEL's limits exhausts the recursion limit inside the dump visitor; whether
+    it raises or returns is not judged) must not leave anything behind: the round trips that follow are judged as usual."""
+    depth = rnd.choice([300, 600, 1200])
+    text = rnd.choice(["a + ", "f(b) * ", "!"]) + "(" * depth + "x" + ")" * depth
+    env.acc.hook("failing-dump-attempt")
+    try:
+        tree = env.parser.parse(text)
+    except Exception:
+        return
+    try:
+        env.cp.tree_dump(tree)
+        env.acc.hook("deep-dump-returned")
+    except BaseException as ex:  # RecursionError expected
+        env.acc.hook("deep-dump-raised:" + type(ex).__name__)
+    for follow in ("b * c", "[1, 2].map(x, x)", "p ? q : r"):
+        check_text(env, follow, "after-failing-dump")
 
 
 def check_text(env: Env, text: str, origin: str):
